@@ -173,11 +173,12 @@ class Built:
         return order, parents, outs
 
 
-def _x_arg(b, mi, X):
-    """X is either a list of rows (array input) or {id: rows} (mapping input)."""
+def _x_arg(b, mi, X, as_int=False):
+    """X is either a list of rows (array input) or {id: rows} (mapping input); as_int: integer-typed arrays (values must be integers)."""
+    conv = (lambda rows: fl(rows).astype(np.int64)) if as_int else fl
     if isinstance(X, dict):
-        return {b.all_nodes()[int(i)].name: fl(rows) for i, rows in X.items()}
-    return fl(X)
+        return {b.all_nodes()[int(i)].name: conv(rows) for i, rows in X.items()}
+    return conv(X)
 
 
 def at_rest(b):
@@ -216,7 +217,7 @@ def run_history(sc):
                             kw["shift_fb"] = o.get("shift_fb", True)
                         if o.get("return_states") is not None:
                             kw["return_states"] = o["return_states"]
-                    res = m.run(_x_arg(b, o["model"], o["X"]), **kw)
+                    res = m.run(_x_arg(b, o["model"], o["X"], o.get("int_input", False)), **kw)
                 else:
                     if is_model and o.get("fb"):
                         kw["forced_feedback"] = {b.all_nodes()[int(i)].name: fl([v]) for i, v in o["fb"].items()}
